@@ -19,15 +19,15 @@ import (
 )
 
 type cfg struct {
-	Name  string
-	Tree  []hx.Spec
-	K     int
-	Late  string // "": none; "root": late Subscribe on the root publisher; "clone": on the first clone
+	Name      string
+	Tree      []hx.Spec
+	K         int
+	Late      string // "": none; "root": late Subscribe on the root publisher; "clone": on the first clone
 	CloseLeaf string // path of a leaf that is closed concurrently with the stream (its siblings must not notice)
 	MapOrder  bool   // the publisher's iteration order over its subscriptions is an explorer choice
-	Prop  string
-	Mode  string
-	Bound int
+	Prop      string
+	Mode      string
+	Bound     int
 }
 
 func script() []kcache.Event {
@@ -184,8 +184,8 @@ func (in *inst) outcome() string {
 	return b.String()
 }
 
-func sub() hx.Spec                   { return hx.Spec{Kind: "sub"} }
-func clone(c ...hx.Spec) hx.Spec     { return hx.Spec{Kind: "clone", Children: c} }
+func sub() hx.Spec               { return hx.Spec{Kind: "sub"} }
+func clone(c ...hx.Spec) hx.Spec { return hx.Spec{Kind: "clone", Children: c} }
 
 // SiblingScenarios: a leaf is closed while events are flowing; its siblings must receive everything (used by C05 and C11).
 func SiblingScenarios(prop, tier string) []runner.Sc {
